@@ -81,7 +81,7 @@ Print Assumptions C19_use_after_put_interferes.
 (* non-vacuity: a server-side upgrade and a client-side masked write, interleaved step by step,
    with the second session receiving the very buffer the first one has just returned *)
 Example C19_nonvacuous :
-  let p0 := path_upgrade_protocol [71;69;84;32;99;104;97;116]%N 4 4 [49;48;49]%N in
+  let p0 := path_upgrade [71;69;84;32;99;104;97;116]%N [ICopy 4 4] [49;48;49]%N in
   let p1 := path_write_client [1;2;3]%N [130;131]%N [7;7;7;7]%N in
   let progs := fun i => match i with 0 => p0 | 1 => p1 | _ => [] end in
   let sched := [(0,None);(1,None);(0,None);(0,None);(0,None);(0,None);(0,None);(0,None);(0,None);
